@@ -66,8 +66,9 @@ VARIABLES i,        \* record
           hist,     \* reference screens after every word so far: [scr, kind, base, depth, ep]
           ep,       \* epoch: incremented when the displayed memory is rolled, erased or flipped
           defer,    \* roll-up / paint-on frames whose screen matched no candidate: judged against later screens at the end
-          td, tn    \* "row reused": a PAC addressed a row that already held text in the displayed (paint-on) / non-displayed
-                    \* (pop-on) memory, and that memory has not been erased since; failures are then named <clause>_row_reused
+          td, tn    \* "rows reused": the rows of the displayed / non-displayed memory that a PAC addressed while they
+                    \* already held text (pop-on composed over an older caption without ENM; paint-on onto a painted row)
+                    \* since that memory was last erased.  A failure confined to such rows is named <clause>_row_reused
 tvars == <<i, k, p1, p2, dk, cl1, cov, skipped, hist, ep, defer, td, tn>>
 
 Fail(r, x, clause) == PrintT(<<"FAIL", r, x, clause>>)
@@ -77,7 +78,7 @@ Max2(a, b) == IF a > b THEN a ELSE b
 
 Rec == Recs[i]
 St  == Rec.steps[k]
-NoCand == [scr |-> <<>>, kind |-> "popon", base |-> 15, depth |-> 4, t |-> FALSE]
+NoCand == [scr |-> <<>>, kind |-> "popon", base |-> 15, depth |-> 4, t |-> {}]
 
 -----------------------------------------------------------------------------
 (* Observed screens *)
@@ -128,8 +129,14 @@ StrictClause(cands, O, special) ==
         ELSE IF \E j \in 1..Len(cands) : cands[j].kind = "painton" THEN "painton_screen"
         ELSE "popon_screen"
   IN  IF special = "" THEN basecl ELSE special
-Reused(clause, t) == IF t /\ clause \in {"popon_screen", "painton_screen", "doubled_control_once", "other_channel_ignored"}
-                     THEN clause \o "_row_reused" ELSE clause
+\* the screens agree outside the rows R
+Without(scr, R)  == SelectSeq(scr, LAMBDA x : x.row \notin R)
+WithoutO(O, R)   == SelectSeq(O, LAMBDA x : x[1] \notin R)
+EqExcept(scr, O, R) == R # {} /\ ScreenEq(Without(scr, R), WithoutO(O, R))
+Reused(clause, cands, O) ==
+  IF clause \in {"popon_screen", "painton_screen", "doubled_control_once", "other_channel_ignored"}
+     /\ \E j \in 1..Len(cands) : cands[j].kind # "rollup" /\ EqExcept(cands[j].scr, O, cands[j].t)
+  THEN clause \o "_row_reused" ELSE clause
 
 \* diagnostics (only when the environment variable C08_DEBUG is set): the candidates as <<row, code points>>
 Dbg(x) == IF "C08_DEBUG" \in DOMAIN IOEnv THEN PrintT(x) ELSE TRUE
@@ -137,10 +144,10 @@ Brief(scr) == [j \in 1..Len(scr) |-> <<scr[j].row, [x \in 1..Len(scr[j].cells) |
 
 \* attributes of the non-space characters, against the matching screen
 AttrOk(scr, O, r, fr, t) ==
-  LET sfx == IF t THEN "_row_reused" ELSE "" IN
   \A j \in 1..Min2(Len(scr), Len(O)) :
     \A x \in 1..Min2(Len(scr[j].cells), Len(O[j][2])) :
-      LET rc == scr[j].cells[x]  oc == O[j][2][x] IN
+      LET rc == scr[j].cells[x]  oc == O[j][2][x]
+          sfx == IF scr[j].row \in t THEN "_row_reused" ELSE "" IN
       IF rc.ch = 32 THEN TRUE
       ELSE /\ Chk(oc[2] = rc.col, r, fr, "attr_colour" \o sfx)
            /\ Chk((oc[3] = 1) = rc.it, r, fr, "attr_italic" \o sfx)
@@ -153,17 +160,18 @@ Outcome(cands, O, special) ==
   ELSE StrictClause(cands, O, special)
 
 \* prints the verdict of one frame (TRUE in any case); a deferred frame prints nothing yet
-Judge(r, fr, cands, O, special, t) ==
+Judge(r, fr, cands, O, special) ==
   LET out == Outcome(cands, O, special) IN
   IF out = "ok"
   THEN LET hits == {j \in 1..Len(cands) : Matches(cands[j], O)}
            c    == cands[CHOOSE j \in hits : \A j2 \in hits : j <= j2]
        IN  AttrOk(c.scr, O, r, fr, c.t)
   ELSE IF out = "defer" THEN TRUE
-  ELSE Fail(r, fr, Reused(out, t)) /\ Dbg(<<"DBG", r, fr, [j \in 1..Len(cands) |-> Brief(cands[j].scr)], O>>)
+  ELSE Fail(r, fr, Reused(out, cands, O)) /\ Dbg(<<"DBG", r, fr, [j \in 1..Len(cands) |-> Brief(cands[j].scr)], O>>)
 
-Deferred(fr, from, e, cands, O, special, t) ==
-  [fr |-> fr, from |-> from, ep |-> e, O |-> O, clause |-> Reused(StrictClause(cands, O, special), t), t |-> t,
+Deferred(fr, from, e, cands, O, special) ==
+  [fr |-> fr, from |-> from, ep |-> e, O |-> O, clause |-> StrictClause(cands, O, special),
+   t |-> UNION {cands[j].t : j \in 1..Len(cands)},
    paint |-> \E j \in 1..Len(cands) : cands[j].kind = "painton"]
 
 WithExact(c, e) == [scr |-> c.scr, kind |-> c.kind, base |-> c.base, depth |-> c.depth, exact |-> e, t |-> c.t]
@@ -190,13 +198,14 @@ Post(kind) ==
          nep    == IF kind \in {"CR", "EDM", "EOC"} \/ (kind = "RU" /\ mode # "rollup") THEN ep + 1 ELSE ep
          \* a PAC onto a row that already holds text in the memory being written (not in roll-up: the base row continues)
          hit     == kind = "Pac" /\ mode \in {"popon", "painton"} /\ PacRow(B1(St.w), B2(St.w)) \in NonEmptyRows(Writing)
+         prow    == PacRow(B1(St.w), B2(St.w))
          ntd     == CASE kind = "EOC" -> tn
-                      [] kind = "EDM" \/ (kind = "RU" /\ mode # "rollup") -> FALSE
-                      [] hit /\ mode = "painton" -> TRUE
+                      [] kind = "EDM" \/ (kind = "RU" /\ mode # "rollup") -> {}
+                      [] hit /\ mode = "painton" -> td \cup {prow}
                       [] OTHER -> td
          ntn     == CASE kind = "EOC" -> td
-                      [] kind = "ENM" \/ (kind = "RU" /\ mode # "rollup") -> FALSE
-                      [] hit /\ mode = "popon" -> TRUE
+                      [] kind = "ENM" \/ (kind = "RU" /\ mode # "rollup") -> {}
+                      [] hit /\ mode = "popon" -> tn \cup {prow}
                       [] OTHER -> tn
          after  == [scr |-> Screen(disp'), kind |-> NextDk, base |-> base', depth |-> depth', exact |-> FALSE, t |-> ntd]
          closing == kind \in {"CR", "EDM", "RCL", "RDC", "EOC", "RU"}
@@ -209,13 +218,13 @@ Post(kind) ==
          trigger == changed \/ (mode' = "rollup" /\ kind \in {"RU", "CR", "Pac"}) \/ (mode' = "painton" /\ kind = "Pac")
          d       == IF CopyFollows(Rec, k, lastCtl', fr, df) THEN 1 ELSE 0
          O       == Rec.obs[ObsIdx(Rec, fr)].scr
-         t       == \E j \in 1..Len(cands) : cands[j].t
-     IN  /\ Judge(Rec.id, fr, cands, O, special, t) = TRUE
+     IN  /\ Judge(Rec.id, fr, cands, O, special) = TRUE
          /\ td' = ntd /\ tn' = ntn
          /\ defer' = IF Outcome(cands, O, special) = "defer"
-                     THEN Append(defer, Deferred(fr, Max2(1, Len(hist) + 2 - Len(cands)), nep, cands, O, special, t))
+                     THEN Append(defer, Deferred(fr, Max2(1, Len(hist) + 2 - Len(cands)), nep, cands, O, special))
                      ELSE defer
-         /\ hist' = Append(hist, [scr |-> after.scr, kind |-> after.kind, base |-> after.base, depth |-> after.depth, ep |-> nep])
+         /\ hist' = Append(hist, [scr |-> after.scr, kind |-> after.kind, base |-> after.base, depth |-> after.depth, ep |-> nep,
+                                   t |-> ntd])
          /\ ep' = nep
          /\ p1' = [scr |-> after.scr, kind |-> after.kind, base |-> after.base, depth |-> after.depth, t |-> ntd]
          /\ p2' = p1
@@ -245,10 +254,10 @@ QuietCand(exact) == <<[scr |-> Screen(disp), kind |-> dk, base |-> base, depth |
 QuietFr(rec, j, fr0) == Max2(rec.obs[j].f, fr0)
 QuietJudge(rec, fr0, fr1, exact) ==
   \A n \in 1..Len(QuietIdx(rec, fr0, fr1)) :
-    LET j == QuietIdx(rec, fr0, fr1)[n] IN Judge(rec.id, QuietFr(rec, j, fr0), QuietCand(exact), rec.obs[j].scr, "", td)
+    LET j == QuietIdx(rec, fr0, fr1)[n] IN Judge(rec.id, QuietFr(rec, j, fr0), QuietCand(exact), rec.obs[j].scr, "")
 QuietDefers(rec, fr0, fr1) ==
   LET sel == SelectSeq(QuietIdx(rec, fr0, fr1), LAMBDA j : Outcome(QuietCand(FALSE), rec.obs[j].scr, "") = "defer")
-  IN  [n \in 1..Len(sel) |-> Deferred(QuietFr(rec, sel[n], fr0), Max2(1, Len(hist)), ep, QuietCand(FALSE), rec.obs[sel[n]].scr, "", td)]
+  IN  [n \in 1..Len(sel) |-> Deferred(QuietFr(rec, sel[n], fr0), Max2(1, Len(hist)), ep, QuietCand(FALSE), rec.obs[sel[n]].scr, "")]
 
 TNewLine ==
   /\ InRec /\ St.t = "L"
@@ -273,8 +282,13 @@ TUnsup ==
 \* a deferred frame: the shown screen must be a later reference screen of the same epoch (the row / span as it will be).
 \* Roll-up: that is the admitted "row as a whole".  Paint-on: a failure of its own name.
 Resolve(r, d) ==
-  LET fut == {j \in d.from..Len(hist) : hist[j].ep = d.ep /\ FutMatch(hist[j], d.O)} IN
-  IF fut = {} THEN Fail(r, d.fr, d.clause) /\ Dbg(<<"DBG", r, d.fr, <<>>, d.O>>)
+  LET fut == {j \in d.from..Len(hist) : hist[j].ep = d.ep /\ FutMatch(hist[j], d.O)}
+      \* ... or such a screen but for the reused rows
+      futx == {j \in d.from..Len(hist) : hist[j].ep = d.ep /\ hist[j].kind # "rollup" /\ EqExcept(hist[j].scr, d.O, hist[j].t \cup d.t)}
+  IN
+  IF fut = {} THEN Fail(r, d.fr, IF futx # {} /\ d.clause \in {"popon_screen", "painton_screen", "doubled_control_once", "other_channel_ignored"}
+                                 THEN d.clause \o "_row_reused" ELSE d.clause)
+                   /\ Dbg(<<"DBG", r, d.fr, <<>>, d.O>>)
   ELSE IF d.paint THEN Fail(r, d.fr, "painton_ahead_of_reception")
   ELSE AttrOk(hist[CHOOSE j \in fut : \A j2 \in fut : j <= j2].scr, d.O, r, d.fr, d.t)
 
@@ -299,7 +313,7 @@ TEnd ==
 TNextRec ==
   /\ i <= Len(Recs) /\ (skipped \/ k > Len(Rec.steps))
   /\ i' = i + 1 /\ k' = 1 /\ p1' = NoCand /\ p2' = NoCand /\ dk' = "popon" /\ cl1' = FALSE /\ cov' = {} /\ skipped' = FALSE
-  /\ hist' = <<>> /\ ep' = 0 /\ defer' = <<>> /\ td' = FALSE /\ tn' = FALSE
+  /\ hist' = <<>> /\ ep' = 0 /\ defer' = <<>> /\ td' = {} /\ tn' = {}
   /\ mode' = "none" /\ depth' = 2 /\ base' = 15 /\ disp' = EmptyMem /\ ndisp' = EmptyMem /\ cur' = <<15, 1>>
   /\ pen' = DefaultPen /\ lastCtl' = 0 /\ chan' = 1 /\ frame' = 0 /\ df' = FALSE
   /\ UNCHANGED gvars
@@ -311,7 +325,7 @@ TFinish ==
 TInit ==
   /\ DInit /\ frame = 0 /\ df = FALSE
   /\ i = 1 /\ k = 1 /\ p1 = NoCand /\ p2 = NoCand /\ dk = "popon" /\ cl1 = FALSE /\ cov = {} /\ skipped = FALSE
-  /\ hist = <<>> /\ ep = 0 /\ defer = <<>> /\ td = FALSE /\ tn = FALSE
+  /\ hist = <<>> /\ ep = 0 /\ defer = <<>> /\ td = {} /\ tn = {}
   /\ ph = "trace" /\ style = "none" /\ ncap = 0 /\ nrow = 0 /\ nitem = 0 /\ pend = 0 /\ c2 = FALSE /\ sent = <<>> /\ budget = 0
   /\ lastch = FALSE /\ clean = FALSE
 
